@@ -115,4 +115,89 @@ mod vp_kani_rlp {
         }
         assert!(x.length() == out.len());
     }
+
+    #[kani::proof]
+    #[kani::unwind(14)]
+    fn header_decode_bytes_conforms() {
+        let buf: [u8; 12] = kani::any();
+        let len: usize = kani::any();
+        kani::assume(len <= 12);
+        let is_list: bool = kani::any();
+        let s = &buf[..len];
+        let mut cur = s;
+        let r = Header::decode_bytes(&mut cur, is_list);
+        match parse_hdr_exec(s) {
+            Some((list, payload, hlen)) => {
+                // Ok  <==>  the header's kind matches; then the payload slice and the advance are exact
+                assert!(r.is_ok() == (list == is_list));
+                if let Ok(b) = r {
+                    assert!(b.len() == payload);
+                    assert!(cur.len() == len - hlen - payload);
+                    let mut i = 0;
+                    while i < payload {
+                        assert!(b[i] == s[hlen + i]);
+                        i += 1;
+                    }
+                }
+            }
+            None => assert!(r.is_err()),
+        }
+    }
+
+    #[kani::proof]
+    #[kani::unwind(14)]
+    fn u64_decode_conforms() {
+        let buf: [u8; 11] = kani::any();
+        let len: usize = kani::any();
+        kani::assume(len <= 11);
+        let s = &buf[..len];
+        let mut cur = s;
+        let r = u64::decode(&mut cur);
+        let ok = match parse_hdr_exec(s) {
+            Some((false, payload, hlen)) => payload <= 8 && (payload == 0 || s[hlen] != 0),
+            _ => false,
+        };
+        assert!(r.is_ok() == ok);
+        if let Ok(v) = r {
+            let (_, payload, hlen) = parse_hdr_exec(s).unwrap();
+            let mut val: u128 = 0;
+            let mut i = 0;
+            while i < payload {
+                val = val * 256 + s[hlen + i] as u128;
+                i += 1;
+            }
+            assert!(v as u128 == val);
+            assert!(cur.len() == len - hlen - payload);
+        }
+    }
+
+    #[kani::proof]
+    #[kani::unwind(12)]
+    fn header_encode_conforms() {
+        // hdr(list, n): 1 byte for n < 56, else 1 + |be_trim(n)| bytes; length() agrees
+        let list: bool = kani::any();
+        let n: usize = kani::any();
+        let h = Header { list, payload_length: n };
+        let mut out: Vec<u8> = Vec::new();
+        h.encode(&mut out);
+        assert!(h.length() == out.len());
+        let base: u8 = if list { 0xC0 } else { 0x80 };
+        if n < 56 {
+            assert!(out.len() == 1 && out[0] == base + n as u8);
+        } else {
+            let mut k = 0usize; // number of significant bytes of n
+            let mut m = n;
+            while m > 0 {
+                m >>= 8;
+                k += 1;
+            }
+            assert!(out.len() == 1 + k);
+            assert!(out[0] == base + 55 + k as u8);
+            let mut i = 0;
+            while i < k {
+                assert!(out[1 + i] == (n >> (8 * (k - 1 - i))) as u8);
+                i += 1;
+            }
+        }
+    }
 }
